@@ -171,7 +171,9 @@ let model (toks : string list) : string =
     join (canon_state s0 :: steps s0)
       (if kind = "writer" then writer_life temps ver q w h else reader_life temps ver q w h)
   | "copy" ->
-    let x = match get "f" "exit" a with "w" -> XWriteError | "z" -> XZeroWrite | "n" -> XNoProgress | _ -> XFinished in
+    let x = match get "f" "exit" a with
+      | "w" -> XWriteError | "z" -> XZeroWrite | "wp" -> XWriteErrorReadPending | "zp" -> XZeroWriteReadPending
+      | "n" -> XNoProgress | _ -> XFinished in
     join [] (copy_life temps ver [] [] h x)
   | "oneshot" ->
     let q = n_of_int (i (get "5" "q" a)) and w = n_of_int (i (get "18" "w" a)) in
